@@ -35,8 +35,8 @@ type c06Op struct {
 	Flags  uint64 `json:"flags,omitempty"`  // leaf flags
 
 	// fault
-	Page      int    `json:"page,omitempty"`    // alias page index (mod count); -1 = pool page P
-	Knock     [3]int `json:"knock"`             // per upper level: 1 = clear Present, 2 = clear RW, 3 = set User
+	Page      int    `json:"page,omitempty"` // alias page index (mod count); -1 = pool page P
+	Knock     [3]int `json:"knock"`          // per upper level: 1 = clear Present, 2 = clear RW, 3 = set User
 	Off       uint64 `json:"off,omitempty"`
 	Info      uint64 `json:"info,omitempty"`
 	FailAlloc bool   `json:"failalloc,omitempty"`
@@ -44,16 +44,18 @@ type c06Op struct {
 }
 
 type c06Case struct {
-	FullInit bool    `json:"fullinit"` // bring the vmm up through Init (else reserveZeroedFrame on the boot root)
-	Ops      []c06Op `json:"ops"`
+	FullInit  bool    `json:"fullinit"` // bring the vmm up through Init (else reserveZeroedFrame on the boot root)
+	Ops       []c06Op `json:"ops"`
+	Hi        uint64  `json:"hi,omitempty"`        // frames with upper-half physical names (vmMachine.hiMask)
+	RootFlags uint64  `json:"rootflags,omitempty"` // extra bits on the boot root's recursive entry
 }
 
 type c06Stats struct {
-	recoveredShared bool // recoverable fault with >=2 pages sharing the source frame
+	recoveredShared    bool // recoverable fault with >=2 pages sharing the source frame
 	nonRecovAllPresent bool
-	injected        bool
-	zeroRWRejected  int
-	remapped        bool // a page was mapped onto its shared frame a second time
+	injected           bool
+	zeroRWRejected     int
+	remapped           bool // a page was mapped onto its shared frame a second time
 }
 
 type c06Alias struct {
@@ -70,6 +72,7 @@ var c06Sink io.Writer = c06Discard{}
 func c06Run(c c06Case) (fail *vlib.Failure, rs c06Stats) {
 	defer vlib.Guard("C06", c, nil)()
 	m := vmNew()
+	m.hiMask, m.rootExtra = c.Hi, uintptr(c.RootFlags)
 	kfmt.SetOutputSink(c06Sink)
 	defer kfmt.SetOutputSink(nil)
 	defer func() { handleInterruptFn = gate.HandleInterrupt }()
@@ -83,6 +86,7 @@ func c06Run(c c06Case) (fail *vlib.Failure, rs c06Stats) {
 	var err *kernel.Error
 	if c.FullInit {
 		visitElfSectionsFn = func(multiboot.ElfSectionVisitor) {}
+		m.lowNext = 1 // the kernel's own root: first frame Init allocates, later read through its physical address
 		if pc := vlib.Catch(func() { err = Init(0xffff800000000000) }); pc.Panicked || err != nil {
 			return vlib.Failf("vmm.Init failed: %v %v", err, pc), rs
 		}
@@ -93,6 +97,10 @@ func c06Run(c c06Case) (fail *vlib.Failure, rs c06Stats) {
 		if pc := vlib.Catch(func() { err = reserveZeroedFrame() }); pc.Panicked || err != nil {
 			return vlib.Failf("reserving the shared zero frame failed: %v %v", err, pc), rs
 		}
+	}
+	m.lowNext = 0
+	if m.cr3&vmHighBit != 0 {
+		return nil, rs // (only on a tree that allocates its root differently) the machine cannot host this case
 	}
 	zero := ReservedZeroedFrame
 	if !m.inArena(zero.Address()) {
@@ -486,6 +494,7 @@ func TestVerifC06(t *testing.T) {
 	rapid.Check(t, func(t *rapid.T) {
 		var c c06Case
 		c.FullInit = rapid.Bool().Draw(t, "fullinit")
+		c.Hi, c.RootFlags = vmGenPhys(t)
 		minOps := rapid.SampledFrom([]int{1, 1, 6, 16, 30}).Draw(t, "minops")
 		c.Ops = rapid.SliceOfN(rapid.Custom(c06GenOp), minOps, vlib.Scale(40, 120)).Draw(t, "ops")
 		fail, rs := c06Run(c)
